@@ -11,6 +11,7 @@ import (
 )
 
 type Solver struct {
+	baseMs   int
 	name     string
 	fallback *Solver
 	usedFB   bool
@@ -138,6 +139,30 @@ func (s *Solver) Check(extra *Term) string {
 	return r
 }
 
+// setTimeout changes the per-query limit of this back end (and not of its fallback).
+func (s *Solver) setTimeout(ms int) {
+	if strings.HasPrefix(s.name, "z3") {
+		s.send(fmt.Sprintf("(set-option :timeout %d)", ms))
+	} else {
+		s.send(fmt.Sprintf("(set-option :tlimit-per %d)", ms))
+	}
+}
+
+// CheckPatient re-decides a query that came back unknown with a much longer limit on both back ends
+// (used for assertion queries only: an unknown assertion makes the whole harness inconclusive).
+func (s *Solver) CheckPatient(extra *Term, ms int) string {
+	s.setTimeout(ms)
+	if s.fallback != nil {
+		s.fallback.setTimeout(ms)
+	}
+	r := s.Check(extra)
+	s.setTimeout(s.baseMs)
+	if s.fallback != nil {
+		s.fallback.setTimeout(s.fallback.baseMs)
+	}
+	return r
+}
+
 // after a sat Check (before EndCheck) fetch values
 func (s *Solver) Values(ts []*Term) []string {
 	if s.usedFB {
@@ -185,6 +210,7 @@ func newSolverPair(profile, tier string, seed int64) *Solver {
 	mkZ3 := func(ms int) *Solver {
 		s := NewSolver("z3", "-in")
 		s.name = "z3"
+		s.baseMs = ms
 		s.send(fmt.Sprintf("(set-option :timeout %d)", ms))
 		s.send(fmt.Sprintf("(set-option :random-seed %d)", seed%1000000))
 		return s
@@ -192,6 +218,7 @@ func newSolverPair(profile, tier string, seed int64) *Solver {
 	mkCVC := func(ms int) *Solver {
 		s := NewSolver("cvc5", "--incremental", "--lang=smt2", "--solve-bv-as-int=sum", fmt.Sprintf("--tlimit-per=%d", ms), fmt.Sprintf("--seed=%d", seed%1000000))
 		s.name = "cvc5(bv-as-int)"
+		s.baseMs = ms
 		return s
 	}
 	if profile == "arith" {
